@@ -641,12 +641,13 @@ func init() {
 		section{"rdataless", tiered(8, 100), c01Rdataless},
 		section{"records", tiered(nl*150, nl*3000), c01Records},
 		section{"messages", tiered(8000, 150000), c01Messages},
+		concurrentSection("C01"),
 	)
 	core.Register(&core.Monitor{
 		ID: "C01", Level: "exploration", Plan: plan, Run: run,
 		Rule: "records: per registry type (+19 unknown codes, 1 PrivateHandle type) x boundary-biased model field values; oracle = independent RFC-layout encoder; " +
 			"checks PackRR(struct)==model octets, UnpackRR(model octets)==struct, Unpack->Pack==octets, decoded values unchanged after the input buffer is overwritten; messages likewise; all 65536 flag words and all RCODEs 0..4095 with/without OPT enumerated; " +
-			"non-trivial = record/message with non-empty RDATA/sections, distinct by wire octets",
+			"the same operations called from 8 goroutines at once give the results they give alone; non-trivial = record/message with non-empty RDATA/sections, distinct by wire octets",
 		Assumptions: []string{"the model's RFC layout table (DESIGN.md Appendix A) is right", "only model-well-formed records are required to round-trip"},
 		MinObserved: []string{"header_words", "rcodes", "messages"},
 	})
